@@ -127,6 +127,15 @@ def judge(chk) -> Tuple[List[Tuple[str, str]], int]:
             kr, rr = _key_of(right) if isinstance(right, Sym) else (None, None)
             if kl is None and kr is None and isinstance(left, Sym) and isinstance(right, Sym):
                 continue   # the indexes themselves are compared (exact instants): nothing is lost, at worst a day appears twice and is merged
+            if (kl is None) != (kr is None) and isinstance(left, Sym) and isinstance(right, Sym):
+                # one side reduced to its calendar day, the other compared as instants: the generated calendar carries the time of day of the
+                # frame's first timestamp, so unless that is midnight no day matches and every day is added a second time as a missing row
+                k_ = kl or kr
+                bad.append((f"day-key-mismatch:{'instants' if kl is None else kl}|{'instants' if kr is None else kr}",
+                            f"the days already present are matched with `{k_}` on one side and the raw timestamps on the other (`{canon(s)[:160]}`): the generated calendar keeps the time of day "
+                            f"of the frame's first timestamp, so when that is not local midnight no day matches, every calendar day is added again as a row without usage, and the day counts "
+                            f"of the sufficiency criteria double"))
+                continue
             for k_ in (kl, kr):
                 if k_ is None:
                     raise AnalysisError(f"{fi.key}: cannot classify the key used to match calendar days in `{canon(s)[:160]}`")
